@@ -18,7 +18,7 @@ EXEMPT_KINDS = {"_known": "intern table: append-only and idempotent - a later in
 
 
 def memo_functions(prog: Program) -> List[str]:
-    return sorted(q for q, fi in prog.functions.items() if fi.is_memo and fi.module not in SKIP)
+    return sorted(q for q, fi in prog.functions.items() if prog.is_memoised(fi) and fi.module not in SKIP)
 
 
 def transitive(prog: Program, resolver: Resolver, root: str) -> Reach:
